@@ -10,6 +10,9 @@ import cssutils
 from . import cssrule
 
 
+_ASCII = ''.join(chr(c) for c in range(0x20, 0x7F))
+
+
 class CSSCharsetRule(cssrule.CSSRule):
     """
     The CSSCharsetRule interface represents an @charset rule in a CSS style
@@ -154,6 +157,14 @@ class CSSCharsetRule(cssrule.CSSRule):
                     raise LookupError('"css" names no encoding of its own')
                 # and a text encoding a sheet can be serialized with
                 'a'.encode(encoding, 'replace')
+                # which writes CSS syntax as the bytes the encoding is
+                # detected from: ASCII or, with a BOM, UTF-16/32 (not e.g.
+                # EBCDIC code pages, or cp864 which lacks "%")
+                if not codecs.lookup(encoding).name.startswith((
+                    'utf-16',
+                    'utf-32',
+                )) and _ASCII.encode(encoding) != _ASCII.encode('ascii'):
+                    raise LookupError('not ASCII compatible')
             except (LookupError, UnicodeError):
                 self._log.error(
                     'CSSCharsetRule: Unknown (Python) encoding %r.' % encoding
